@@ -562,7 +562,7 @@ class ConstEval:
     # struct -------------------------------------------------------------
     def is_struct(self, c: ClassInfo) -> bool:
         ext = self.repo.external_bases(c)
-        return any(b.split(".")[-1] in ("Structure", "LittleEndianStructure") for b in ext)
+        return any(b.split(".")[-1] in ("Structure", "LittleEndianStructure", "BigEndianStructure") for b in ext)
 
     # node handlers ------------------------------------------------------
     def _e_Constant(self, node, m, env):
